@@ -1053,7 +1053,7 @@ func (t *TraefikOidc) handleCallback(rw http.ResponseWriter, req *http.Request, 
 
 	// Retrieve original path *before* saving, as save might clear it if Clear was called concurrently
 	redirectPath := "/"
-	if incomingPath := session.GetIncomingPath(); incomingPath != "" && incomingPath != t.redirURLPath {
+	if incomingPath := session.GetIncomingPath(); incomingPath != "" && incomingPath != t.redirURLPath && isLocalRedirectPath(incomingPath) {
 		redirectPath = incomingPath
 	}
 	session.SetIncomingPath("") // Clear incoming path after retrieving it
@@ -1067,6 +1067,19 @@ func (t *TraefikOidc) handleCallback(rw http.ResponseWriter, req *http.Request, 
 	// Redirect to original path or root
 	t.logger.Debugf("Callback successful, redirecting to %s", redirectPath)
 	http.Redirect(rw, req, redirectPath, http.StatusFound)
+}
+
+// isLocalRedirectPath reports whether target is an absolute path on the current origin.
+// Targets that a browser resolves to another host - scheme-relative ("//host/..."),
+// backslash variants ("/\\host"), or anything not starting with a single slash - are refused.
+func isLocalRedirectPath(target string) bool {
+	if len(target) == 0 || target[0] != '/' {
+		return false
+	}
+	if len(target) > 1 && (target[1] == '/' || target[1] == '\\') {
+		return false
+	}
+	return true
 }
 
 // determineExcludedURL checks if the provided request path matches any of the configured excluded URL prefixes.
